@@ -49,6 +49,14 @@ func c17Jobs(c *vk.Ctx) (jobs []Job, nCase, nStack, nDoc, nUnclaimed, nOffenders
 	}
 	nip(harness.C17DocNil, 0)
 	nip(harness.C17DocNoLimitation, 0)
+	// the chain is one value serving every connection: two sessions (concurrent, and one after the
+	// other has ended) must each get their own subscription quota
+	for v := 0; v < harness.C18IsolationVariants; v++ {
+		for seq := 0; seq < 2; seq++ {
+			jobs = append(jobs, Job{Harness: "StatefulIsolation", Bound: -1, BudgetS: vk.Pick(c, 60.0, 600.0), FallbackDelay: 3, Params: map[string]int{"mw": 3, "variant": v, "seq": seq}})
+			nDoc++
+		}
+	}
 	// ---- stacks
 	for a := 0; a < harness.C17Middlewares; a++ {
 		for b := 0; b < harness.C17Middlewares; b++ {
@@ -111,7 +119,7 @@ func c17Limits(c *vk.Ctx) {
 		"Schedules: LimitCase, LimitStack and NIP-11 chains of depth <= 1: all (complete up to happens-before state caching); deeper NIP-11 chains: complete up to the delay bound in the job name. (a) LimitCase: each of the 10 limit middlewares (MaxReqFilters, MaxLimit, MaxSubIDLength, MaxEventTags, MaxContentLength, CreatedAtLowerLimit, CreatedAtUpperLimit, EventCreatedAt(-L,+L), RecvEventAllowFilter, RecvEventDenyFilter) x limit L x probe type (REQ, COUNT, EVENT, CLOSE, AUTH) x every probe size 0..L+2 in the limited dimension (number of filters; per-filter limit absent / 0..L+2 / several filters where only the first, only the second or none offends; sub-id bytes; tags; content bytes; created_at offset -(L+2)..+(L+2) s around the virtual now; matcher matches or not) and three shapes for the types the middleware does not limit; script [CLOSE z, PROBE, REQ e], the stub emits all seven server message types on REQ e. " +
 		"(b) LimitStack: every ordered pair of different middlewares on a 7-message script (offender and boundary-conforming message of each, one offending both or an AUTH, bystanders). " +
 		"(thorough tier: L up to 4 and every ordered pair of probes in one session [CLOSE z, P, Q, REQ e].) " +
-		"(c) NIP11Chain: BuildMiddlewareFromNIP11 for every subset of the seven limits (value 2, created_at 100 s), a nil document and a document without a limitation block, on an 18-message session (and, where max_subscriptions meets max_filters or max_limit, a second 12-message session in which REQs refused by those limits come first and must not take subscription slots) (quota crossing, CLOSE frees, re-REQ of an open id, 3 filters, limit 3, COUNT with 3 filters, 3 tags, content 3, +-1000 s, boundary-conforming ones) against a stub that replies to every message. " +
+		"(c) NIP11Chain: BuildMiddlewareFromNIP11 for every subset of the seven limits (value 2, created_at 100 s), a nil document and a document without a limitation block, on an 18-message session (and, where max_subscriptions meets max_filters or max_limit, a second 12-message session in which REQs refused by those limits come first and must not take subscription slots) (quota crossing, CLOSE frees, re-REQ of an open id, 3 filters, limit 3, COUNT with 3 filters, 3 tags, content 3, +-1000 s, boundary-conforming ones) against a stub that replies to every message; plus two sessions (concurrent / one after the other) through ONE chain with max_subscriptions 1: each gets its own quota. " +
 		"Oracle at quiescence: downstream saw, pointer-identical, deep-equal to a reference copy and in order, exactly the messages that respect every configured limit; each offender got exactly one rejection of its type (OK false <event id> / CLOSED <sub id>) and nothing else did; the client saw every downstream server message pointer-identical and in order. " +
 		"distinct_nontrivial = jobs (distinct (configuration, message) cases by construction); distinct_outcomes = distinct per-message fates"
 	res := runJobs(c, jobs)
